@@ -75,6 +75,9 @@ func (n *Native) binary(g *Group, pkg string) (string, error) {
 	return bin, err
 }
 
+// hangLimit: a native replay or validation run that is still going after this long counts as a hang
+const hangLimit = 20 * time.Second
+
 type Outcome struct {
 	Harness string
 	File    string
@@ -99,11 +102,16 @@ func (n *Native) run(g *Group, pkg, test string, env []string) (*Outcome, string
 	done := make(chan struct{})
 	var out []byte
 	go func() { out, _ = cmd.CombinedOutput(); close(done) }()
+	hung := false
 	select {
 	case <-done:
-	case <-time.After(150 * time.Second):
+	case <-time.After(hangLimit):
 		cmd.Process.Kill()
 		<-done
+		hung = true
+	}
+	if hung {
+		return &Outcome{Status: "hang"}, string(out), nil
 	}
 	data, _ := os.ReadFile(outf.Name())
 	var outs []Outcome
